@@ -159,12 +159,14 @@ func run(o hx.RunOpts) error {
 		{2, 1, 5, "z200,g,g"},      // pad byte > size
 		{2, 1, 5, "k2,g,g"},        // checksum byte only
 		{2, 1, 5, "k2,z0,g"},       // beyond parity, metadata only
+		{2, 1, 4, "o,g,o"},         // p+1 bodies replaced by another blob's (consistent) bodies: Verify passes
+		{3, 2, 9, "o,g,g,o,o"},
 	} {
 		if err := x.do(c.d, c.p, c.size, 7, 0, nil, strings.Split(c.dmg, ",")); err != nil {
 			return err
 		}
 	}
-	mixes := o.N(2, 6)
+	mixes := o.N(8, 30)
 	for _, cfg := range ecx.Configs(o.Thorough()) {
 		d, par := cfg[0], cfg[1]
 		n := d + par
